@@ -554,6 +554,7 @@ type IfaceMethodSpec struct {
 
 type IfaceSpec struct {
 	Name    string // qualified interface type name, e.g. io.Reader
+	Pkg     string
 	Ghost   []Param
 	Methods map[string]*IfaceMethodSpec
 }
@@ -707,7 +708,7 @@ func (db *SpecDB) loadFile(path, pkg string, assumed bool) error {
 			db.Lemmas[l.Name] = l
 			curC, curL, curLoop, curI, curM = nil, l, nil, nil, nil
 		case "interface":
-			it := &IfaceSpec{Name: rc.rest, Methods: map[string]*IfaceMethodSpec{}}
+			it := &IfaceSpec{Name: rc.rest, Pkg: pkg, Methods: map[string]*IfaceMethodSpec{}}
 			db.Ifaces[it.Name] = it
 			curC, curL, curLoop, curI, curM = nil, nil, nil, it, nil
 		case "ghost":
